@@ -71,9 +71,9 @@ def http_status_env() -> dict[str, object]:
     import http
 
     env: dict[str, object] = {}
-    for s in http.HTTPStatus:
-        env[f"HTTPStatus.{s.name}"] = int(s)
-        env[f"http.HTTPStatus.{s.name}"] = int(s)
+    for name, s in http.HTTPStatus.__members__.items():  # includes aliases (REQUEST_ENTITY_TOO_LARGE)
+        env[f"HTTPStatus.{name}"] = int(s)
+        env[f"http.HTTPStatus.{name}"] = int(s)
     return env
 
 
@@ -100,8 +100,12 @@ def str_suffix(repo, fi: FunctionInfo, e: ast.expr, _depth: int = 0) -> str | No
         vals = [n.value for n in walk_scope(fi.node) if isinstance(n, ast.Assign) and any(isinstance(t, ast.Name) and t.id == e.id for t in n.targets)]
         if len(vals) == 1:
             return str_suffix(repo, fi, vals[0], _depth + 1)
+        if vals or (e.id not in fi.module.constants and e.id not in fi.module.imports):
+            return None  # several local definitions / a parameter: unknown (and no need to chase imports)
         c = repo.const_str(fi.module, e)
         return c if isinstance(c, str) else None
+    if isinstance(e, (ast.Call, ast.Attribute, ast.Subscript)):
+        return None
     c = repo.const_str(fi.module, e)
     return c if isinstance(c, str) else None
 
@@ -586,3 +590,125 @@ def names_assigned(fi: FunctionInfo, name: str) -> list[ast.expr]:
         elif isinstance(n, ast.AnnAssign) and isinstance(n.target, ast.Name) and n.target.id == name and n.value is not None:
             out.append(n.value)
     return out
+
+
+# ---------------------------------------------------------------------------------------------
+# flow-sensitive backward slice (reaching definitions on the CFG)
+class FlowSlicer:
+    """Backward slice of an expression to *labels* found in the expressions that define its names,
+    following only the definitions that reach the use on some CFG path (so a scratch variable that is
+    re-assigned between uses — ``raw = get(A); a = int(raw); raw = get(B); b = int(raw)`` — is sliced
+    correctly).  ``leaf(expr) -> (labels, ids_of_nodes_to_skip)`` recognises the sources."""
+
+    def __init__(self, fi: FunctionInfo, leaf) -> None:
+        from ..cfg import cfg_of
+
+        self.fi = fi
+        self.cfg = cfg_of(fi.node)
+        self.leaf = leaf
+        self.defs: dict[str, list[tuple[ast.AST, ast.expr | None]]] = {}
+        for n in walk_scope(fi.node):
+            tgts: list[ast.expr] = []
+            val: ast.expr | None = None
+            if isinstance(n, ast.Assign):
+                tgts, val = list(n.targets), n.value
+            elif isinstance(n, ast.AnnAssign) and n.value is not None:
+                tgts, val = [n.target], n.value
+            elif isinstance(n, ast.AugAssign):
+                tgts, val = [n.target], n.value
+            elif isinstance(n, (ast.For, ast.AsyncFor)):
+                tgts, val = [n.target], n.iter
+            elif isinstance(n, (ast.With, ast.AsyncWith)):
+                for it in n.items:
+                    if it.optional_vars is not None:
+                        for x in ast.walk(it.optional_vars):
+                            if isinstance(x, ast.Name):
+                                self.defs.setdefault(x.id, []).append((n, it.context_expr))
+                continue
+            for t in tgts:
+                for x in ast.walk(t):
+                    if isinstance(x, ast.Name) and isinstance(x.ctx, ast.Store):
+                        self.defs.setdefault(x.id, []).append((n, val))
+        self._reach_memo: dict[tuple[str, int], list[tuple[ast.AST, ast.expr | None]]] = {}
+
+    def reaching(self, name: str, at: ast.AST) -> list[tuple[ast.AST, ast.expr | None]]:
+        ds = self.defs.get(name, [])
+        if len(ds) <= 1:
+            return ds
+        try:
+            use = self.cfg.attempt(at)
+            key = (name, id(self.cfg.stmt_of(at)))
+        except AnalysisError:
+            return ds
+        if key in self._reach_memo:
+            return self._reach_memo[key]
+        out = []
+        for st, val in ds:
+            kill: set[int] = set()
+            for st2, _v in ds:
+                if st2 is not st:
+                    kill |= self.cfg.done(st2)
+            starts = succ_of(self.cfg, self.cfg.done(st))
+            # the use may be the very next node: include the successors themselves
+            if use & (starts | self.cfg.reach(starts - kill, kill)):
+                out.append((st, val))
+        self._reach_memo[key] = out
+        return out
+
+    def roots(self, e: ast.AST, at: ast.AST, _seen: frozenset[int] = frozenset()) -> set[str]:
+        labels, skip = self.leaf(e)
+        out = set(labels)
+        for n in ast.walk(e):
+            if isinstance(n, ast.Name) and isinstance(n.ctx, ast.Load) and id(n) not in skip:
+                for st, val in self.reaching(n.id, at):
+                    if id(st) in _seen or val is None:
+                        continue
+                    out |= self.roots(val, st, _seen | {id(st)})
+        return out
+
+
+# ---------------------------------------------------------------------------------------------
+# cheap intra-module call graph (no cross-module resolution => no parsing of unrelated modules)
+def local_callee(res, fi: FunctionInfo, c: ast.Call) -> FunctionInfo | None:
+    """Callee of ``self.m(...)`` / ``f(...)`` / nested ``g(...)`` when it lives in fi's own module."""
+    f = c.func
+    mod = fi.module
+    if isinstance(f, ast.Attribute) and isinstance(f.value, ast.Name) and f.value.id in ("self", "cls"):
+        ci = res.class_of(fi)
+        if ci is not None and f.attr in ci.methods:
+            return ci.methods[f.attr]
+        return None
+    if isinstance(f, ast.Name):
+        cur: FunctionInfo | None = fi
+        while cur is not None:
+            if f.id in cur.nested:
+                return cur.nested[f.id]
+            cur = cur.parent
+        if f.id in mod.functions:
+            return mod.functions[f.id]
+        # local alias of a bound method:  g = self._helper ; g()
+        for n in walk_scope(fi.node):
+            if isinstance(n, ast.Assign) and any(isinstance(t, ast.Name) and t.id == f.id for t in n.targets) and isinstance(n.value, ast.Attribute) and isinstance(n.value.value, ast.Name) and n.value.value.id == "self":
+                ci = res.class_of(fi)
+                if ci is not None and n.value.attr in ci.methods:
+                    return ci.methods[n.value.attr]
+    return None
+
+
+def local_reach(res, roots: list[FunctionInfo], depth: int | None = None) -> dict[FunctionInfo, tuple[FunctionInfo | None, ast.Call | None]]:
+    """Functions of the roots' own modules reachable through same-module calls -> (caller, site)."""
+    seen: dict[FunctionInfo, tuple[FunctionInfo | None, ast.Call | None]] = {r: (None, None) for r in roots}
+    frontier = list(roots)
+    d = 0
+    while frontier and (depth is None or d < depth):
+        nxt: list[FunctionInfo] = []
+        for fi in frontier:
+            for n in walk_scope(fi.node):
+                if isinstance(n, ast.Call):
+                    t = local_callee(res, fi, n)
+                    if t is not None and t not in seen:
+                        seen[t] = (fi, n)
+                        nxt.append(t)
+        frontier = nxt
+        d += 1
+    return seen
